@@ -655,6 +655,14 @@ func (fc *FnCtx) allocRef(hint string) string {
 		fc.localRefs = map[string]bool{}
 	}
 	fc.localRefs[r] = true
+	for name, g := range fc.e.specs.Ghosts {
+		if g.InitFalse {
+			key := "ghost:" + name + "."
+			arr := fc.heapGet(fc.cur, key, fieldSort(sBool))
+			fc.heapSet(fc.cur, key, fieldSort(sBool), sx("store", arr, r, "false"))
+			fc.noteWrite(key)
+		}
+	}
 	fc.cur.ac = fc.def("ac", sInt, sx("+", fc.cur.ac, "1"))
 	return r
 }
